@@ -71,6 +71,42 @@ CHECKS = {
          "adds real but uncontrolled interleavings",
          "schedule enumeration in a single-step reference VM + kernel "
          "stress, conservation oracle", "4 C06"),
+ "C08": ("exploration",
+         "Seeded random declaration sets over a base class, a derived class "
+         "(with overriding and inherit-only variants) and SubProgram "
+         "instances: after the real ArrayMap.init/collect a layout monitor "
+         "asserts that the byte ranges of the descriptors attribute lookup "
+         "resolves are pairwise disjoint and inside the map; then values "
+         "written from Python are copied by the loaded program in the kernel "
+         "and read back from Python; per-CPU leg with one value per possible "
+         "CPU and counter sums.",
+         "trusts the kernel; multi-element formats are exercised from the "
+         "Python side only (the program side addresses their first element)",
+         "structural invariant monitor at a hook-free observation point + "
+         "round-trip differential runs in the kernel", "4 C08"),
+ "C09": ("exploration",
+         "Random operation sequences from both sides (Python mapping API; "
+         "program update/lookup/member writes/in-place updates executed by "
+         "BPF_PROG_TEST_RUN) on hash-map variables and on Dict maps with "
+         "random packed Key/Value structures are checked after every "
+         "operation against a reference dict bytes->bytes with independently "
+         "computed struct layouts, and against the raw kernel contents read "
+         "with the harness's own bpf() calls.",
+         "trusts the kernel; LRU maps are kept below capacity",
+         "runtime monitoring against an executable reference model "
+         "(history of operations, model-based oracle)", "4 C09"),
+ "C10": ("exploration",
+         "A syscall interposer at ebpfcat.bpf.bpf records every map command "
+         "with the size of the Python object behind each pointer (captured "
+         "at addrof/addressof/c_char.from_buffer) and asserts key >= "
+         "key_size, value >= value_size (per-CPU: round_up(8) x possible "
+         "CPUs), next_key >= key_size, with map geometry from the "
+         "intercepted MAP_CREATE calls; workload = C09's random API "
+         "sequences + per-CPU reads. Thorough tier adds valgrind memcheck "
+         "as a second, independent sanitizer.",
+         "only calls reachable from the workload are seen; unknown pointer "
+         "provenance is counted and must stay below 1%",
+         "argument/buffer-size monitor on every syscall + memcheck", "4 C10"),
 }
 
 NOT_YET = "check not built yet in this round (design in DESIGN.md section 4)"
